@@ -82,7 +82,7 @@ struct Sh {
     cfg: Cfg,
     panicked: AtomicUsize,  // tasks that really panicked (user panics)
     cancelled: AtomicBool,  // a cancel was issued
-    owners: Mutex<Vec<may::coroutine::Coroutine>>, // coroutines that own (or may own) a scope: cancel targets
+    owners: Mutex<Vec<(u64, may::coroutine::Coroutine)>>, // (path, handle) of coroutines that own a scope: cancel targets
     results_bad: AtomicUsize,
 }
 
@@ -155,7 +155,7 @@ fn task(sh: Arc<Sh>, seed: u64, level: u64, path: u64, anc: Vec<Arc<Frame>>) -> 
     let open = level < sh.cfg.depth && (level == 0 || r.pct(60));
     if open {
         if may::coroutine::is_coroutine() {
-            sh.owners.lock().unwrap().push(may::coroutine::current());
+            sh.owners.lock().unwrap().push((path, may::coroutine::current()));
         }
         let k = 1 + r.next() % sh.cfg.kids;
         let fr = Arc::new(Frame { alive: AtomicBool::new(true), running: AtomicUsize::new(0), kid_panicked: AtomicUsize::new(0), name: format!("f{path}") });
@@ -169,6 +169,7 @@ fn task(sh: Arc<Sh>, seed: u64, level: u64, path: u64, anc: Vec<Arc<Frame>>) -> 
             let (sh, frames) = (sh.clone(), frames.clone());
             move || -> u64 {
                 let p = path * 5 + i + 1;
+                mayv::ctx().log("kid.start", p, may::verif::current_co_id(), None);
                 let fin = KidFin { frames: frames.clone(), path: p };
                 let v = task(sh, seed, level + 1, p, frames);
                 drop(fin);
@@ -197,6 +198,7 @@ fn task(sh: Arc<Sh>, seed: u64, level: u64, path: u64, anc: Vec<Arc<Frame>>) -> 
                 let mut hs = vec![];
                 for i in 0..k {
                     fr.running.fetch_add(1, SeqCst);
+                    c.log("spawn.pre", path * 5 + i + 1, 0, None);
                     let h = may::go!(s, mk(i));
                     hs.push((i, h));
                     if r2.pct(30) {
@@ -204,14 +206,14 @@ fn task(sh: Arc<Sh>, seed: u64, level: u64, path: u64, anc: Vec<Arc<Frame>>) -> 
                     }
                     if opanic && opanic_at == 0 && i == 0 {
                         sh.panicked.fetch_add(1, SeqCst);
-                        c.log("owner.panic", path, 0, None);
+                        c.log("task.panic", path, 0, None);
                         panic!("owner-panic-{path}");
                     }
                 }
                 pause(&mut r2);
                 if opanic && opanic_at == 1 {
                     sh.panicked.fetch_add(1, SeqCst);
-                    c.log("owner.panic", path, 0, None);
+                    c.log("task.panic", path, 0, None);
                     panic!("owner-panic-{path}");
                 }
                 for (i, h) in hs {
@@ -230,9 +232,10 @@ fn task(sh: Arc<Sh>, seed: u64, level: u64, path: u64, anc: Vec<Arc<Frame>>) -> 
                 }
                 if opanic && opanic_at == 2 {
                     sh.panicked.fetch_add(1, SeqCst);
-                    c.log("owner.panic", path, 0, None);
+                    c.log("task.panic", path, 0, None);
                     panic!("owner-panic-{path}");
                 }
+                c.log("scope.close", path, 0, None);
             });
         }
         // the scope returned normally
@@ -247,9 +250,10 @@ fn task(sh: Arc<Sh>, seed: u64, level: u64, path: u64, anc: Vec<Arc<Frame>>) -> 
     if level > 0 && r.pct(sh.cfg.cpanic) {
         sh.panicked.fetch_add(1, SeqCst);
         anc[0].kid_panicked.fetch_add(1, SeqCst);
-        c.log("kid.panic", path, 0, None);
+        c.log("task.panic", path, 0, None);
         panic!("kid-panic-{path}");
     }
+    c.log("task.end", path, value_of(path), None);
     value_of(path)
 }
 
@@ -336,6 +340,7 @@ fn main() {
                             }
                         }
                         let _d = D(d2);
+                        mayv::ctx().log("root.start", may::verif::current_co_id(), 1, None);
                         if select {
                             select_root(&sh2, seed)
                         } else {
@@ -362,27 +367,42 @@ fn main() {
                     if d2.load(SeqCst) {
                         return;
                     }
-                    let target = if any {
+                    // targets are tasks that have announced themselves (they own a scope, or the select root)
+                    let (tpath, target) = {
                         let v = sh2.owners.lock().unwrap();
-                        if v.is_empty() {
-                            root.clone()
-                        } else {
+                        if select {
+                            (0, root.clone())
+                        } else if v.is_empty() {
+                            return;
+                        } else if any {
                             v[(pick % v.len() as u64) as usize].clone()
+                        } else {
+                            v[0].clone()
                         }
-                    } else {
-                        root.clone()
                     };
                     sh2.cancelled.store(true, SeqCst);
-                    c.log("cancel.call", 0, 0, None);
+                    c.log("cancel.call", tpath, 0, None);
                     unsafe { target.cancel() };
                     c.log("cancel.ret", 0, 0, None);
                 }));
             }
+            // the main thread is not a task of the model: it does not register as a waiter while the trace is recorded
+            let mut polls = 0u64;
+            while !h.is_done() {
+                ctx.sleep_ns(250_000);
+                polls += 1;
+                if polls > 400_000 {
+                    ctx.fail("hang: the root task never finished (100 s of virtual time)".into());
+                    return;
+                }
+            }
+            ctx.record(false);
             let r = h.join();
             *outcome.lock().unwrap() = Some(r.map_err(describe));
         } else {
             let (sh2, o2) = (sh.clone(), outcome.clone());
             let t = ctx.spawn("root", move || {
+                mayv::ctx().log("root.start", 0, 0, None);
                 let r = catch_unwind(AssertUnwindSafe(|| task(sh2.clone(), seed, 0, 0, vec![])));
                 *o2.lock().unwrap() = Some(r.map_err(|e| e.downcast_ref::<String>().cloned().unwrap_or_else(|| "non-string payload (Cancel)".into())));
             });
